@@ -395,11 +395,13 @@ def gen_actor_case(rng, name, props, logger=False):
             pass
         return it
 
-    def mk_actor(ctx_ops, slab=False):
+    def mk_actor(ctx_ops, slab=False, pn=""):
         aid = ids.next("aid")
         oid = ids.next("oid")
         kind = rng.choice(["now", "now", "now", "async", "async", "fail", "never", "stopinit", "failsome"])
         op = {"op": "acreate", "aid": aid, "oid": oid, "slab": slab, "form": rng.choice([0, 0, 1, 2])}
+        if pn:
+            op["pnotify"] = pn      # the child's notifier is also wired to its parent (ret_fail! / ret_failthru!)
         if kind == "async":
             steps = rng.randrange(1, 4)
             # chain of prep calls to self
@@ -444,7 +446,7 @@ def gen_actor_case(rng, name, props, logger=False):
                 tgt = rng.choice(actors)
                 it["ops"].append({"op": "call", "aid": tgt, "item": meth_item(tgt, depth + 1)})
             elif c < 0.55:
-                mk_actor(it["ops"], slab=rng.random() < 0.6)
+                mk_actor(it["ops"], slab=rng.random() < 0.6, pn=rng.choice(["", "", "fail", "failthru"]))
             elif c < 0.65 and [o for o in owners if owners[o] > aid]:
                 # ownership edges only point to younger actors: the owner graph stays acyclic
                 oid = rng.choice([o for o in owners if owners[o] > aid])
